@@ -470,9 +470,22 @@ func (c *conn) judge(upto int) {
 	var reacts []reaction
 	settingsAcks := 0
 	pingAcks := map[[8]byte]int{}
+	from := c.cursor
+	fed := false
+	feed := func() {
+		// The reference sees the server's frames after the verdicts of this group are
+		// settled: a response may belong to a stream that exists in the reference only
+		// once its HEADERS verdict is committed (4xx written before the PING ACK).
+		if !fed {
+			fed = true
+			for i := from; i <= upto; i++ {
+				c.ref.Server(evs[i])
+			}
+		}
+	}
+	defer feed()
 	for i := c.cursor; i <= upto; i++ {
 		e := evs[i]
-		c.ref.Server(e)
 		if e.EOF {
 			c.eof = true
 			c.logf("< EOF (%s)", e.ReadErr)
@@ -650,6 +663,7 @@ func (c *conn) judge(upto int) {
 		}
 	}
 	c.pending = c.pending[:0]
+	feed()
 	if c.fail != nil {
 		return
 	}
